@@ -6,6 +6,9 @@ use crate::model::cal;
 /// every `stride`-th day elsewhere (offset by the seed so that different seeds cover different days);
 /// thorough tier (full = true): every day of years 1..=9999.
 pub fn for_days(cfg: &Cfg, shard: u32, full: bool, stride: i64, mut f: impl FnMut(i64, u32, u32, i64)) {
+    if cfg.fuzz {
+        return; // coverage-guided mode: the random strata only
+    }
     let z0 = cal::days_from_1900(1, 1, 1);
     let z1 = cal::days_from_1900(9999, 12, 31);
     let a = cal::days_from_1900(1850, 1, 1);
